@@ -3,10 +3,10 @@ use std::borrow::Cow;
 #[cfg(not(dandavison_delta_verif_shuttle))]
 use lazy_static::lazy_static;
 // Verification hook: OUTPUT_CONFIG queries the calling process; re-initialised per simulated execution.
-#[cfg(dandavison_delta_verif_shuttle)]
-use shuttle::lazy_static;
 use regex::Regex;
 use serde::Deserialize;
+#[cfg(dandavison_delta_verif_shuttle)]
+use shuttle::lazy_static;
 
 use crate::ansi;
 use crate::config::{
